@@ -1296,6 +1296,116 @@ theorem distribute_keeps_records (s s' : Collect.State) (c : Collect.Coll) (h : 
           have a3 := clm _ _ _ _ h3
           exact ⟨by show s3.colls = _; rw [a3.1, a2.1, a1.1], by show s3.contribs = _; rw [a3.2, a2.2, a1.2]⟩
 
+/-- the first loop of the EndBlocker (reward distribution of every active collective whose period has come) writes no
+collective and no contributor record -/
+theorem distLoop_keeps_records (now : Nat) (l : List Collect.Coll) (s s' : Collect.State)
+    (h : Collect.distLoop s now l = .ok s') : s'.colls = s.colls ∧ s'.contribs = s.contribs := by
+  induction l generalizing s with
+  | nil => simp only [Collect.distLoop, Except.ok.injEq] at h; subst h; exact ⟨rfl, rfl⟩
+  | cons c rest ih =>
+    unfold Collect.distLoop at h
+    split at h
+    · cases hd : Collect.distribute s c with
+      | ok s1 =>
+        rw [hd] at h
+        have a := distribute_keeps_records s s1 c hd
+        have b := ih s1 h
+        exact ⟨by rw [b.1, a.1], by rw [b.2, a.2]⟩
+      | error e =>
+        rw [hd] at h
+        cases e with
+        | panic => cases h
+        | err => exact ih s h
+    · exact ih s h
+
+/-- `WithdrawCollective` (keeper) removes exactly the record of that contributor -/
+theorem withdrawK_contribs {s s' : Collect.State} {c : Collect.Coll} {cc : Collect.Contrib}
+    (h : Collect.withdrawK s c cc = .ok s') : s'.contribs = Collect.delContrib s.contribs cc.coll cc.acct := by
+  unfold Collect.withdrawK at h
+  split at h
+  · split at h
+    · cases h
+    · split at h
+      · cases h
+      · split at h
+        · cases h
+        · simp only at h
+          split at h
+          · cases h
+          · cases h; rfl
+  · cases h
+
+/-- the contributors' loop of a dissolution removes the records of the listed contributors and no other -/
+theorem withdrawAll_contribs (c : Collect.Coll) (l : List Collect.Contrib) (s s' : Collect.State)
+    (h : Collect.withdrawAll s c l = .ok s') :
+    ∀ x, x ∈ s'.contribs ↔ x ∈ s.contribs ∧ ∀ cc ∈ l, ¬ (x.coll = cc.coll ∧ x.acct = cc.acct) := by
+  induction l generalizing s with
+  | nil => simp only [Collect.withdrawAll, Except.ok.injEq] at h; subst h; intro x; simp
+  | cons cc rest ih =>
+    unfold Collect.withdrawAll at h
+    cases hw : Collect.withdrawK s c cc with
+    | error e => rw [hw] at h; cases h
+    | ok s1 =>
+      rw [hw] at h
+      have h1 := withdrawK_contribs hw
+      intro x
+      rw [ih s1 h x, h1]
+      unfold Collect.delContrib
+      simp only [List.mem_filter, Bool.not_eq_true', Bool.and_eq_false_iff, beq_eq_false_iff_ne, ne_eq, List.mem_cons, forall_eq_or_imp]
+      constructor
+      · rintro ⟨⟨hx, hne⟩, hr⟩
+        refine ⟨hx, ?_, hr⟩
+        rintro ⟨e1, e2⟩
+        rcases hne with hh | hh
+        · exact hh e1
+        · exact hh e2
+      · rintro ⟨hx, hne, hr⟩
+        refine ⟨⟨hx, ?_⟩, hr⟩
+        by_cases e1 : x.coll = cc.coll
+        · right; intro e2; exact hne ⟨e1, e2⟩
+        · left; exact e1
+
+/-- **a dissolution (`ExecuteCollectiveRemove`) removes the collective and the records of ITS contributors - every
+contributor record of every other collective is still there** -/
+theorem executeRemove_records {s s' : Collect.State} {c : Collect.Coll} (h : Collect.executeRemove s c = .ok s') :
+    (∀ x, x ∈ s'.contribs ↔ x ∈ s.contribs ∧ x.coll ≠ c.name) ∧ Collect.findColl s'.colls c.name = none := by
+  unfold Collect.executeRemove at h
+  cases hd : Collect.distribute s c with
+  | error e => rw [hd] at h; cases h
+  | ok s1 =>
+    rw [hd] at h
+    simp only at h
+    cases hw : Collect.withdrawAll s1 c (s1.contribs.filter (fun cc => cc.coll == c.name)) with
+    | error e => rw [hw] at h; cases h
+    | ok s2 =>
+      rw [hw] at h
+      simp only [Except.ok.injEq] at h
+      subst h
+      have hrec := distribute_keeps_records s s1 c hd
+      have hall := withdrawAll_contribs c _ s1 s2 hw
+      constructor
+      · intro x
+        show x ∈ s2.contribs ↔ _
+        rw [hall x, hrec.2]
+        constructor
+        · rintro ⟨hx, hne⟩
+          refine ⟨hx, ?_⟩
+          intro e
+          exact hne x (by simp [List.mem_filter, hx, e]) ⟨rfl, rfl⟩
+        · rintro ⟨hx, hne⟩
+          refine ⟨hx, ?_⟩
+          intro cc hcc ⟨e1, _⟩
+          have : cc.coll = c.name := by
+            have := (List.mem_filter.mp hcc).2
+            simpa using this
+          exact hne (e1.trans this)
+      · show Collect.findColl (s2.colls.filter _) c.name = none
+        unfold Collect.findColl
+        rw [List.find?_eq_none]
+        intro q hq
+        have := (List.mem_filter.mp hq).2
+        simpa using this
+
 /-- … but with several weighted pools the rounded portions can add up to MORE than the rewards claimed - the excess is
 taken from the bonds in the same account: 7 units of reward, two pools of weight one half, portions 4 + 4
 (finding `C18/collectives-distribution/rounded-portions-exceed-rewards`) -/
